@@ -327,6 +327,16 @@ def run(pid, tier):
                        "allocation never fails in these runs (see C18)"]
 
     mine = [x for x in oracle_fails if x[1][0] == pid]
+    sync_found = []
+    if pid == "C09":
+        # the callbacks are also the change log of what rtr_sync does to the table (apply, undo, purge, atomic reload)
+        import rtrcheck
+        sync_found = rtrcheck.cblog_scan(rep, pid, tier)
+        if sync_found is None:
+            vlib.proof_failure(rep, "protocol harness build failed (callback log during synchronisation)")
+            sync_found = []
+        for c, msg in sync_found[:2]:
+            rep.violation("oracle_sync", "# property %s fails on the implementation: %s\n# mutation: %s\n%s\n" % (pid, msg, c.meta.get("mut"), "\n".join(c.ops)))
     # crashes: sanitizer / assertion aborts are failing inputs for C01 (validation must answer) and C04
     for c, nout, rc1, err1 in crashes:
         ops = minimise_crash(exe, c.ops)
